@@ -1,11 +1,11 @@
 import FsutilModel.DiffPopL
 namespace Fsm.D
 
-variable {P : Type} [DecidableEq P]
+variable {P : Type} [DecidableEq P] {I : Type} [DecidableEq I]
 
 /-- step that consumes the head of the upper list (add) -/
-theorem inv_popU {O : PathOrd P} {tU : TMap P} {u : Ent P} {ls us : List (Ent P)} {rm : Option P}
-    {t t' : TMap P} (hi : Inv O tU ls (u :: us) rm t)
+theorem inv_popU {O : PathOrd P} {tU : TMap P I} {u : Ent P I} {ls us : List (Ent P I)} {rm : Option P}
+    {t t' : TMap P I} (hi : Inv O tU ls (u :: us) rm t)
     (hlt : ∀ l ∈ ls, O.lt u.path l.path = true)
     (ha : ∀ q, q ≠ u.path → t' q = t q)
     (hb : t' u.path = some u) :
